@@ -68,6 +68,10 @@ const R_ALL: &[(&str, Fm)] = &[
     ("foo$tag=t1", Fm::Std),
     ("@@foo$tag=t2", Fm::Std),
     ("bar$tag=t1,important", Fm::Std),
+    // twins that a structural rule id cannot tell apart (tag only / sign of the domain list only)
+    ("@@foo$tag=t1", Fm::Std),
+    ("/foo/bar$tag=t1,domain=example.com|tracker.co.uk", Fm::Std),
+    ("/foo/bar$tag=t1,domain=~example.com|~tracker.co.uk", Fm::Std),
     // --- redirect / redirect-rule
     ("||ads.net^$redirect=a", Fm::Std),
     ("foo$redirect-rule=b", Fm::Std),
